@@ -21,6 +21,7 @@
 //	grpcjson <continue_on_error> <file>    grpc/json provider on arbitrary bytes
 //	cfg <yaml>                             scenario config.DecodeMap (third-party YAML + mapstructure): fuzzed only
 //	cfghdrs / wfile / cfile / sfile        see cfgin.go (config `headers` lists, scenario files in every format)
+//	clicfg <form> <tree>                   see r8.go (top-level config file through the real CLI reader, child process)
 //
 // Every call runs under recover and a bounded wait; outcome classes panic / hang / oom.
 package main
@@ -444,6 +445,11 @@ func runCase(c string) string {
 				return fmt.Sprintf("ok len %d", len(v))
 			}
 		})
+	case "clicfg":
+		if len(f) != 3 {
+			return "badcase"
+		}
+		return clicfgRun(f[1], f[2])
 	case "jbad":
 		return jbadRun(f)
 	case "popt":
@@ -526,6 +532,10 @@ func main() {
 		vh.WriteLines(os.Args[3], oracleAll(vh.ReadLines(os.Args[2])))
 		return
 	}
+	if len(os.Args) == 3 && os.Args[1] == "clisub" {
+		cliSub(os.Args[2])
+		return
+	}
 	initPlugins()
 	if len(os.Args) == 3 && os.Args[1] == "one" {
 		fmt.Println(runCase(os.Args[2]))
@@ -533,8 +543,11 @@ func main() {
 	}
 	vh.Main(gen, func(cases []string) []string {
 		out := make([]string, len(cases))
+		clicfgRunAll(cases, out) // every clicfg case is a child process: a few at a time
 		for i, c := range cases {
-			out[i] = runCase(c)
+			if out[i] == "" {
+				out[i] = runCase(c)
+			}
 		}
 		return out
 	})
